@@ -4,7 +4,7 @@ import numpy as np
 from ..runner import Acc, HarnessError
 from ..refmodel import Fmt, overflow_code
 from .. import alphabet as al
-from ..common import Fxp, codes, flags, fmt_of, reset_class_state, obs
+from ..common import Fxp, codes, flags, fmt_of, reset_class_state, obs, build
 
 ID = 'C14'
 RULE = ('cases = (format, shifting mode, overflow mode, direction, shift count, code or code array); expand: value(x<<n) == value(x)*2^n and '
@@ -17,11 +17,12 @@ ASSUMPTIONS = ['for an overflowing << in trunc/keep mode either the saturated or
 MODES = ('expand', 'trunc', 'keep')
 
 
-def judge(acc, f, mode, ovf, d, n, cs, part):
+def judge(acc, f, mode, ovf, d, n, cs, part, by='raw'):
     """cs: list (array operand) or int (scalar)"""
     arr = isinstance(cs, list)
     cl = cs if arr else [cs]
-    case = {'part': part, 'fmt': list(f), 'shifting': mode, 'overflow': ovf, 'dir': d, 'n': n, 'codes': cs}
+    case = {'part': part, 'fmt': list(f), 'shifting': mode, 'overflow': ovf, 'dir': d, 'n': n, 'codes': cs, 'by': by}
+    acc.dim('built_by', by, len(cl))
     acc.evaluations += len(cl)
     acc.transitions += 1
     acc.dim('mode', mode, len(cl))
@@ -29,7 +30,7 @@ def judge(acc, f, mode, ovf, d, n, cs, part):
     lossy = [c for c in cl if c < 0 or (d == '>>' and c % (1 << n) != 0) or (d == '<<' and not (f.lo <= c << n <= f.hi))]
     acc.nontrivial += len(lossy)
     try:
-        x = Fxp(np.array(cl, dtype=np.int64) if arr else cs, f.signed, f.n_word, f.n_frac, raw=True, shifting=mode, overflow=ovf)
+        x = build(f, cl, (len(cl),) if arr else (), by, shifting=mode, overflow=ovf)
         before = obs(x)
         z = (x << n) if d == '<<' else (x >> n)
         got = codes(z)
@@ -130,6 +131,7 @@ def run_shard(sh):
                     for d in ('<<', '>>'):
                         for n in range(0, nw + 4):
                             judge(acc, f, mode, ovf, d, n, cs, 'S')
+                            judge(acc, f, mode, ovf, d, n, cs, 'S', 'value')
                             for c in cs:
                                 judge(acc, f, mode, ovf, d, n, c, 'S')
                             if sh['pairs'] and ovf == 'saturate':
@@ -157,7 +159,7 @@ def run_shard(sh):
 def replay(case):
     reset_class_state()
     acc = Acc()
-    judge(acc, Fmt(*case['fmt']), case['shifting'], case['overflow'], case['dir'], case['n'], case['codes'], case['part'])
+    judge(acc, Fmt(*case['fmt']), case['shifting'], case['overflow'], case['dir'], case['n'], case['codes'], case['part'], case.get('by', 'raw'))
     return acc.violations
 
 
